@@ -8,6 +8,7 @@ import (
 
 	"verif/internal/core"
 	"verif/internal/drv"
+	"verif/internal/enum"
 	"verif/internal/textref"
 )
 
@@ -196,4 +197,122 @@ func c02AnalysedSpace(depth int) *core.Space {
 
 func langserverCached(s *drv.Server, rel string) (string, bool) {
 	return c02Cached(s)
+}
+
+// Handler-level batches: one didChange carrying two entries, each a range edit or a full-text replacement, through the
+// real TextDocumentDidChange (the pure-batch2 space only drives FileMapCache.ApplyContentChanges with range edits).
+type c02Entry struct {
+	full bool
+	text string
+	ed   c02Edit
+}
+
+func (e c02Entry) String() string {
+	if e.full {
+		return fmt.Sprintf("full(%q)", e.text)
+	}
+	return fmt.Sprintf("%d:%d-%d:%d%q", e.ed.S.Line, e.ed.S.Char, e.ed.E.Line, e.ed.E.Char, e.ed.Ins)
+}
+
+func c02Entries(text string, fulls []string) []c02Entry {
+	var out []c02Entry
+	for _, e := range c02Edits(text, false) {
+		out = append(out, c02Entry{ed: e})
+	}
+	for _, t := range fulls {
+		out = append(out, c02Entry{full: true, text: t})
+	}
+	return out
+}
+
+func (e c02Entry) apply(text string) (string, bool) {
+	if e.full {
+		return e.text, true
+	}
+	return textref.Apply(text, e.ed.S, e.ed.E, e.ed.Ins)
+}
+
+var c02bSrv *drv.Server
+
+func c02HandlerBatchSpace(docs []string) *core.Space {
+	type first struct {
+		d  string
+		e1 c02Entry
+		t1 string
+	}
+	var firsts []first
+	cum := []int64{0}
+	for _, d := range docs {
+		for _, e1 := range c02Entries(d, docs) {
+			t1, ok := e1.apply(d)
+			if !ok {
+				continue
+			}
+			firsts = append(firsts, first{d, e1, t1})
+			cum = append(cum, cum[len(cum)-1]+int64(len(c02Entries(t1, docs))))
+		}
+	}
+	at := func(i int64) (string, c02Entry, c02Entry, string) {
+		k := enum.Locate(cum, i)
+		f := firsts[k]
+		return f.d, f.e1, c02Entries(f.t1, docs)[i-cum[k]], f.t1
+	}
+	name := "handler-batch2"
+	return &core.Space{
+		Name: name, N: cum[len(cum)-1], Chunk: 2000, RecycleEvery: 50,
+		Describe: func(i int64) interface{} {
+			d, e1, e2, _ := at(i)
+			return map[string]interface{}{"text": d, "didChange_entries": []string{e1.String(), e2.String()}}
+		},
+		Setup: func() {
+			if c02bSrv == nil {
+				root := drv.NewWorkspace(map[string]string{"a.lua": c02DiskText})
+				s, err := drv.Start(root, drv.Options{})
+				if err != nil {
+					panic(err)
+				}
+				c02bSrv = s
+			}
+		},
+		Run: func(i int64, r *core.Result) {
+			d, e1, e2, t1 := at(i)
+			srv := c02bSrv
+			r.Evaluated++
+			want, ok := e2.apply(t1)
+			if !ok {
+				return
+			}
+			r.Nontrivial++
+			if _, open := c02Cached(srv); open {
+				srv.CloseDoc("a.lua")
+			}
+			srv.Open("a.lua", d)
+			mk := func(e c02Entry) drv.Change {
+				if e.full {
+					return drv.Change{Text: e.text}
+				}
+				return drv.Change{Range: &drv.Range{Start: drv.Pos{Line: e.ed.S.Line, Character: e.ed.S.Char}, End: drv.Pos{Line: e.ed.E.Line, Character: e.ed.E.Char}}, Text: e.ed.Ins}
+			}
+			if err := srv.ChangeBatch("a.lua", []drv.Change{mk(e1), mk(e2)}); err != nil {
+				r.Fail(name, i, "transport-error", fmt.Sprintf("%q|%v|%v", d, e1, e2), map[string]interface{}{"error": err.Error()})
+				return
+			}
+			r.Transitions += 2
+			got, open := c02Cached(srv)
+			kinds := func(e c02Entry) string {
+				if e.full {
+					return "full"
+				}
+				return "range"
+			}
+			if !open || got != want {
+				sig := fmt.Sprintf("batch-through-handler:text-mismatch:%s-then-%s", kinds(e1), kinds(e2))
+				r.Outcome(sig)
+				r.Fail(name, i, sig, fmt.Sprintf("%q|%v|%v", d, e1, e2), map[string]interface{}{"text": d, "entries": []string{e1.String(), e2.String()}, "expected": want, "server": got, "open": open})
+				return
+			}
+			r.States++
+			r.Outcome("batch-applied:" + kinds(e1) + "-then-" + kinds(e2))
+		},
+	}
 }
